@@ -115,6 +115,10 @@ class Cell {
     long peek() const { return a == b ? a : -(a * 1000 + b) - 1; }  // silent (driver-side final inspection)
     bool operator==(const Cell& o) const { return a == o.a && b == o.b; }
 
+    // instances created with `new` are never really freed: a destroyed one still knows its id and that it is dead
+    static void* operator new(size_t n) { return ::operator new(n); }
+    static void operator delete(void*) noexcept {}
+
   private:
     static bool loud() { return scheduled() && !(g_cell.quietCtor && cur_id() == 0); }
     void copy_from(const Cell& o, const char* kb, const char* ke)
